@@ -92,19 +92,24 @@ def build_node(cfg):
     ctx.conflicts = lambda: []
     smod.conciliate_conflicts = lambda *a, **k: rec.outs.append(('Conciliate',))
     sm = supv.state_modes
-    real_eval = sm.evaluate_stability
     first = [True]
+    supv._verif_rec = rec
+    # one oracle per evaluation of instance.next(): _check_instances is its first statement in every state class
+    if not getattr(smod._SupvisorsBaseState, '_verif_wrapped', False):
+        orig_check = smod._SupvisorsBaseState._check_instances
 
-    def evaluate_stability():
-        # one oracle per evaluation of instance.next(): advance at each call but the first of the event
-        if first[0]:
-            first[0] = False
-        else:
-            rec.k += 1
-            if rec.k > 40:
-                raise RecursionError('set_state loop does not terminate')
-        return real_eval()
-    sm.evaluate_stability = evaluate_stability
+        def _check_instances(self):
+            r = getattr(self.supvisors, '_verif_rec', None)
+            if r is not None:
+                if r.first[0]:
+                    r.first[0] = False
+                else:
+                    r.k += 1
+                    if r.k > 40:
+                        raise RecursionError('set_state loop does not terminate')
+            return orig_check(self)
+        smod._SupvisorsBaseState._check_instances = _check_instances
+        smod._SupvisorsBaseState._verif_wrapped = True
     real_accept = sm.accept_master
 
     def accept_master():
@@ -248,13 +253,16 @@ class NodeRunner:
 
 class NodeSuite(Suite):
     name = 'node'
-    prelude = 'From Sup Require Import Node.\nOpen Scope Z_scope.'
+    prelude = 'From Sup Require Import Node NodeSpec.\nOpen Scope Z_scope.'
     case_type = 'ncase'
     evals = {'mismatches': 'mismatches'}
-    shard_size = 150
+    shard_size = 100
 
-    def __init__(self):
+    def __init__(self, evals=None, quick=(1200, 60), thorough=(20000, 300)):
         self._clock = False
+        if evals:
+            self.evals = dict(evals)
+        self.quick, self.thorough = quick, thorough
 
     # ------------------------------------------------------------ generation
     def gen_cfg(self, rng):
@@ -440,7 +448,7 @@ class NodeSuite(Suite):
         return ('ReqEndSync', rng.choice([0, 1, j, 9]), now, self.gen_orcs(rng, busy_p))
 
     def generate(self, rng, tier):
-        n, max_ev = (1200, 60) if tier == 'quick' else (20000, 300)
+        n, max_ev = self.quick if tier == 'quick' else self.thorough
         return [self.gen_history(rng, max_ev, hostile=(k % 4 == 3)) for k in range(n)]
 
     def corpus(self):
@@ -487,10 +495,12 @@ class NodeSuite(Suite):
     @staticmethod
     def observe(supv, outs):
         sm = supv.state_modes.local_state_modes
-        insts = [(idx(k), st.state.value, int(st.times.remote_sequence_counter), int(st.times.local_sequence_counter))
+        insts = [(idx(k), st.state.value, int(st.times.remote_sequence_counter), int(st.times.local_sequence_counter),
+                  int(st.checking_time))
                  for k, st in supv.context.instances.items()]
+        ms = supv.state_modes.master_state
         return (sm.state.value, bool(sm.degraded_mode), idx(sm.master_identifier),
-                [(idx(k), v.value) for k, v in sm.instance_states.items()], insts,
+                [(idx(k), v.value) for k, v in sm.instance_states.items()], ms.value if ms is not None else -1, insts,
                 sorted(idx(x) for x in supv.state_modes.stable_identifiers), list(outs))
 
     # ------------------------------------------------------------ emission
@@ -559,8 +569,8 @@ class NodeSuite(Suite):
         obs = []
         for tag, val in observed['obs']:
             if tag == 'ok':
-                f, d, m, insts, ist, stable, outs = val
-                obs.append(app('NOk', (f, d, m, list(insts), list(ist), list(stable),
+                f, d, m, insts, ms, ist, stable, outs = val
+                obs.append(app('NOk', (f, d, m, list(insts), ms, list(ist), list(stable),
                                        [self.emit_output(o) for o in outs])))
             else:
                 obs.append(app('NCrash', C(val)))
@@ -587,7 +597,7 @@ class NodeSuite(Suite):
 
     def nontrivial(self, inp, observed):
         states = {v[0] for t, v in observed['obs'] if t == 'ok'}
-        lost = any(t == 'ok' and any(i[1] in (4, 5) for i in v[4]) for t, v in observed['obs'])
+        lost = any(t == 'ok' and any(i[1] in (4, 5) for i in v[5]) for t, v in observed['obs'])
         if len(states) >= 3 or lost:
             last = observed['obs'][-1]
             return repr((sorted(states), last[1][:4] if last[0] == 'ok' else last, len(inp[1])))
@@ -595,7 +605,11 @@ class NodeSuite(Suite):
 
     def shrink_candidates(self, inp):
         cfg, evs = inp
-        return [(cfg, evs[:k] + evs[k + 1:]) for k in range(len(evs))] if len(evs) > 1 else []
+        from propcheck import list_cuts
+        return [(cfg, cut) for cut in list_cuts(list(evs))]
+
+    def size_of(self, inp):
+        return len(inp[1])
 
     def distribution(self, inputs, observeds):
         kinds, lens, crashes, maxstate = {}, {}, {}, {}
